@@ -10,7 +10,7 @@ add, subtract and compare only within one unit.
 """
 import collections, copy, json, os
 from concurrent.futures import ThreadPoolExecutor
-from lib import driver as D, machine as M
+from lib import driver as D, machine as M, nodetrace as NT
 
 MUTANTS = ["noClamp", "weekIs5Days", "countNotDuration", "dropOffset"]
 CHUNK = 6000          # observations per judge run (TLC keeps one copy of the observations per worker)
@@ -155,6 +155,10 @@ def run(ctx):
 
     # programs of the whole abstract machine whose last step is one of this property's operations (lib/machine.py)
     verdicts = M.extend(ctx, verdicts, by_id)
+    # node-level trace validation (spec/FPNodeTrace.tla): every `temporal +/- quantity` node inside the repository's own tests,
+    # the machine programs and a spread of the cases above is judged by FPTemporal on the node's logged operands (law temporal)
+    verdicts = NT.extend(ctx, verdicts, by_id, reruns=[
+        (binary, ["run", NT.sample_cases(ctx, ctx.path("cases.ndjson"), 1500 if ctx.tier == "quick" else 12000), ctx.path("obs_traced.ndjson")])])
     return D.finish(
         ctx, verdicts, by_id, evaluations=nchan,
         rule="cases enumerated by TLC from the property's quantifier (%s tier: %d cases = %s; of which %d sampled by tlc -simulate); "
